@@ -66,7 +66,7 @@ EXC_CARRIERS = ["WorkflowFailedEvent", "StepFailedEvent", "StepWorkerFailed", "T
 def plan(tier, seed):
     n = 16 if tier == "quick" else 64
     per = 1200 if tier == "quick" else 12000
-    return [{"seed": seed * 1000 + i, "n": per} for i in range(n)]
+    return [{"seed": seed * 1000 + i, "n": per, "part": i} for i in range(n)]
 
 
 # ----------------------------------------------------------------- value generators (JSON-native)
@@ -598,7 +598,7 @@ def check_tick_case(env, case, acc, exc_spec=None):
     is_exc_case = exc_spec is not None
 
     def raised(stage, x):
-        if is_exc_case:
+        if is_exc_case and not _control_fails_too(lambda: env.tick(case["tick"], CONTROL_EXC), dump, load, stage, x):
             acc.violation({"mech": "exception_rebuilt_from_message", "effect": f"{stage}_raises", "exc": type(x).__name__},
                           f"[{route}] {case['carrier']} carrying {env.exc(exc_spec)!r}: {stage} raised {type(x).__name__}: {str(x)[:300]}", case)
         else:
@@ -674,6 +674,41 @@ def check_tick_case(env, case, acc, exc_spec=None):
                 acc.note("add_waiter_has_requirements_flag_wrong")
 
 
+CONTROL_EXC = {"maker": "ValueError", "m": "boom"}
+
+
+def _try(dump, load, orig):
+    """-> (failing stage | None, exception | None, read-back value | None)"""
+    try:
+        wire = dump(orig)
+    except Exception as x:  # noqa: BLE001
+        return "dump", x, None
+    try:
+        return None, None, load(wire)
+    except Exception as x:  # noqa: BLE001
+        return "load", x, None
+
+
+def _control_fails_too(build, dump, load, stage, x):
+    """Differential attribution: does the same carrier+route fail the same way with a plain ValueError('boom')?
+    If so the failure is not about how the carried exception is rebuilt."""
+    try:
+        cstage, cx, _ = _try(dump, load, build())
+    except Exception:  # noqa: BLE001
+        return True
+    return cstage == stage and type(cx) is type(x)
+
+
+def _carrier_event(env, carrier, exc):
+    from datetime import datetime, timezone
+
+    we = env.we
+    if carrier == "WorkflowFailedEvent":
+        return we.WorkflowFailedEvent(step_name="s", exception=exc, attempts=2, elapsed_seconds=0.5)
+    return we.StepFailedEvent(step_name="s", input_event=env.ce.Plain(), exception=exc, attempts=2, elapsed_seconds=0.5,
+                              failed_at=datetime(2024, 1, 2, 3, 4, 5, tzinfo=timezone.utc))
+
+
 def exc_carrier_case(env, case, acc):
     """One exception through one carrier and route; every failure here is the exception mechanism."""
     carrier, route, es = case["carrier"], case["route"], case["exc"]
@@ -692,28 +727,20 @@ def exc_carrier_case(env, case, acc):
     except Exception as x:  # noqa: BLE001
         acc.inconclusive.append(f"exception maker {es} failed: {x}")
         return
-    we = env.we
-    if carrier == "WorkflowFailedEvent":
-        orig = we.WorkflowFailedEvent(step_name="s", exception=exc, attempts=2, elapsed_seconds=0.5)
-    else:
-        from datetime import datetime, timezone
-
-        orig = we.StepFailedEvent(step_name="s", input_event=env.ce.Plain(), exception=exc, attempts=2, elapsed_seconds=0.5,
-                                  failed_at=datetime(2024, 1, 2, 3, 4, 5, tzinfo=timezone.utc))
+    orig = _carrier_event(env, carrier, exc)
     dump, load = env.route(route)
     acc.hit("exception_roundtrip_eval")
     route_hits(acc, route)
     nested = es["maker"] in env.ce.EXC_NOT_MODULE_LEVEL
-    for stage in ("dump", "load"):
-        try:
-            if stage == "dump":
-                wire = dump(orig)
-            else:
-                got = load(wire)
-        except Exception as x:  # noqa: BLE001
+    stage, x, got = _try(dump, load, orig)
+    if stage:
+        if _control_fails_too(lambda: _carrier_event(env, carrier, env.exc(CONTROL_EXC)), dump, load, stage, x):
+            acc.violation({"mech": "event_roundtrip_raises", "stage": stage, "exc": type(x).__name__},
+                          f"[{route}] {carrier}: {stage} raised {type(x).__name__}: {str(x)[:300]} (also with a control exception)", case)
+        else:
             acc.violation({"mech": "exception_rebuilt_from_message", "effect": f"{stage}_raises", "exc": type(x).__name__},
                           f"[{route}] {carrier} carrying {exc!r}: {stage} raised {type(x).__name__}: {str(x)[:300]}", case)
-            return
+        return
     if type(got) is not type(orig):
         acc.violation({"mech": "event_roundtrip_mismatch", "aspect": "class"}, f"[{route}] {carrier} came back as {type(got).__name__}", case)
         return
@@ -743,6 +770,22 @@ def model_in_result_note(env, acc, rnd):
 
 
 # ----------------------------------------------------------------- driver
+def _ev(cls, fields=None, data=None, **kw):
+    return {"cls": cls, "fields": fields or {}, "data": data or {}, "setitem": {}, **kw}
+
+
+PRELUDE = (
+    [{"kind": "event", "route": r, "ev": _ev("StopEvent", data={"x": 1}, has_result=True, result=1)} for r in ROUTES]
+    + [{"kind": "event", "route": r, "ev": _ev("MyStop", {"answer": "a"}, {"x": 1})} for r in ("json", "tick_persisted")]
+    + [{"kind": "event", "route": r, "ev": _ev("Plain", data={"x": 1})} for r in ROUTES]
+    + [{"kind": "event", "route": r, "ev": _ev("Typed", {"i": 1, "f": 0.5, "s": "s"}, {"x": [1, {"k": None}]})} for r in ROUTES]
+    + [{"kind": "event", "route": r, "ev": _ev("StopEvent", has_result=True, result=v)} for r in ("json", "env_meta_qn", "tick_persisted")
+       for v in (0, False, "", [], {}, None, {"a": [1, 2.5, "s"]})]
+    + [{"kind": "exc", "carrier": c, "route": "json" if "Event" in c and "Tick" not in c else "tick_persisted", "exc": {"maker": m, "m": "k"}}
+       for m in ("ValueError", "key_missing", "unicode_decode", "TwoArg", "CustomStr") for c in EXC_CARRIERS]
+)
+
+
 def run_case(env, case, acc):
     k = case["kind"]
     if k == "event":
@@ -758,6 +801,12 @@ def run_shard(shard):
     acc = Acc()
     rnd = random.Random(shard["seed"])
     model_in_result_note(env, acc, rnd)
+    if shard.get("part") == 0:
+        # small fixed cases first, so that the first witness of a signature is a minimal one
+        for case in PRELUDE:
+            acc.case()
+            acc.sig(h(case))
+            run_case(env, case, acc)
     for _ in range(shard["n"]):
         r = rnd.random()
         if r < 0.6:
